@@ -21,6 +21,9 @@ type KVHook func(kv, op, key string) error
 type KV struct {
 	Name string
 	Hook KVHook
+	// OnMut, if set, observes every applied mutation (after the effect):
+	// op is "set", "delete" or "batch".
+	OnMut func(op, key, val string, batch []sorted.Mutation)
 
 	mu sync.Mutex
 	m  map[string]string
@@ -95,6 +98,9 @@ func (k *KV) Set(key, value string) error {
 	k.mu.Lock()
 	k.m[key] = value
 	k.mu.Unlock()
+	if k.OnMut != nil {
+		k.OnMut("set", key, value, nil)
+	}
 	return nil
 }
 
@@ -105,6 +111,9 @@ func (k *KV) Delete(key string) error {
 	k.mu.Lock()
 	delete(k.m, key)
 	k.mu.Unlock()
+	if k.OnMut != nil {
+		k.OnMut("delete", key, "", nil)
+	}
 	return nil
 }
 
@@ -119,13 +128,16 @@ func (k *KV) CommitBatch(b sorted.BatchMutation) error {
 		return err
 	}
 	k.mu.Lock()
-	defer k.mu.Unlock()
 	for _, m := range bm.Mutations() {
 		if m.IsDelete() {
 			delete(k.m, m.Key())
 		} else if sorted.CheckSizes(m.Key(), m.Value()) == nil {
 			k.m[m.Key()] = m.Value()
 		}
+	}
+	k.mu.Unlock()
+	if k.OnMut != nil {
+		k.OnMut("batch", "", "", bm.Mutations())
 	}
 	return nil
 }
